@@ -25,6 +25,7 @@ import ChialispModel.Drv.Deps
 import ChialispModel.Drv.Step
 import ChialispModel.Drv.Cldb
 import ChialispModel.Drv.CoreDrv
+import ChialispModel.Drv.Shrink
 import ChialispModel.Drv.Reader
 
 def main (args : List String) : IO UInt32 := do
@@ -52,5 +53,6 @@ def main (args : List String) : IO UInt32 := do
   | ["step"] => Drv.Step.run; return 0
   | ["cldb"] => Drv.Cldb.run; return 0
   | ["core"] => Drv.CoreDrv.run; return 0
+  | ["shrink"] => Drv.Shrink.run; return 0
   | ["reader"] => Drv.Reader.run; return 0
   | _ => IO.eprintln s!"modeld: unknown sub-command {args}"; return 2
